@@ -1,14 +1,58 @@
 """Pure level of C16 (natural_cmp, cmp_bench_arg_names: model agreement + total-order axioms) and Miri probes
 of the unsafe helpers behind C13 / C16 / C17 (SplitVec, get_unchecked tokenizer, ErasedArgsSlice)."""
 import random
+import re
 
 from . import build, models, purecheck
 
 ALPHA = list("abzAZ") + list("0123456789") * 2 + list("-_.<> ") + ["é", "ß", "日", "00", "01", "10", "007"]
 
 
-def rand_name(rng):
+BOUNDARY = [2 ** 31, 2 ** 32, 2 ** 63, 2 ** 64, 10 ** 19, 10 ** 20, 2 ** 127, 2 ** 128, 10 ** 38, 10 ** 39]
+
+
+def long_run(rng):
+    """Digit run near a machine-integer boundary (or of 1..45 digits), optionally zero-padded."""
+    if rng.random() < 0.6:
+        v = rng.choice(BOUNDARY) + rng.choice([-2, -1, 0, 1, 2, 10, -10]) * rng.choice([1, 1, 10 ** 3])
+        if rng.random() < 0.3:
+            v = v * rng.choice([9, 10, 11, 100]) + rng.randrange(10)
+    else:
+        nd = rng.choice([1, 5, 18, 19, 20, 21, 22, 30, 38, 39, 40, 45])
+        v = rng.randrange(10 ** (nd - 1), 10 ** nd)
+    return "0" * rng.choice([0, 0, 1, 2, 3, 5]) + str(max(v, 0))
+
+
+def rand_long_name(rng):
+    return rng.choice(["", "", "blk_", "a", "é", "v1."]) + long_run(rng) + rng.choice(["", "", "x", ">", ".0"])
+
+
+def related_name(rng, a):
+    """A name that differs from `a` only inside its first digit run (padding, value +-1, one digit more or less)."""
+    m = re.search(r"[0-9]+", a)
+    if not m:
+        return a + rng.choice(["0", "1"])
+    run = m.group(0)
     k = rng.randrange(6)
+    if k == 0:
+        new = "0" * rng.randrange(1, 4) + run
+    elif k == 1:
+        new = run.lstrip("0") or "0"
+    elif k == 2:
+        new = "0" * (len(run) - len(run.lstrip("0"))) + str(int(run) + rng.choice([1, -1, 10]) if int(run) > 0 else 1)
+    elif k == 3:
+        new = run + rng.choice("0123456789")
+    elif k == 4:
+        new = "0" * rng.randrange(0, 4) + (run.lstrip("0")[:-1] or "0")
+    else:
+        new = "0" * rng.randrange(0, 4) + str(rng.choice(BOUNDARY) + rng.choice([-1, 0, 1]))
+    return a[:m.start()] + new + a[m.end():]
+
+
+def rand_name(rng):
+    k = rng.randrange(8)
+    if k >= 6:
+        return rand_long_name(rng)
     if k == 0:
         return rng.choice(["a", "x", "A<", "v1."]) + str(rng.choice([0, 1, 2, 9, 10, 11, 99, 100, 1000])) + rng.choice(["", ">", "b", ".5"])
     if k == 1:
@@ -51,8 +95,13 @@ def pure_level(tier, seed, out):
     qs, meta = [], []
     for _ in range(npairs // 3):
         a, b, c = rand_name(rng), rand_name(rng), rand_name(rng)
-        if rng.random() < 0.3:
+        r = rng.random()
+        if r < 0.25:
             b = a[:rng.randrange(len(a) + 1)] + rng.choice(["", "0", "1", "x"])
+        elif r < 0.5:
+            b = related_name(rng, a)
+            if rng.random() < 0.5:
+                c = related_name(rng, b)
         for x, y in ((a, b), (b, a), (b, c), (a, c)):
             qs.append("N %s %s" % (hexs(x), hexs(y)))
             meta.append((x, y))
@@ -88,6 +137,8 @@ def pure_level(tier, seed, out):
         names = []
         while len(names) < n:
             a = rand_arg(rng)
+            if names and rng.random() < 0.2:
+                a = related_name(rng, rng.choice(names))
             if a not in names and " " not in a:
                 names.append(a)
         hx = " ".join(hexs(x) if x else "" for x in names)
